@@ -8,6 +8,7 @@ import (
 	"encoding/json"
 	"fmt"
 	"math/big"
+	"reflect"
 
 	"github.com/trustbloc/sidetree-go/pkg/commitment"
 	"github.com/trustbloc/sidetree-go/pkg/jws"
@@ -22,9 +23,9 @@ import (
 func init() {
 	fw.Register(&fw.Check{
 		ID:          "C16",
-		Rule:        "cases: public keys of the five types; EC points are also constructed from a chosen x (0..3 leading zero bytes, y by modular square root) so that fixed-width encoding of short coordinates is exercised for every curve, and searched for leading-zero y. Each key: GetPublicKeyJWK -> kty/crv/width checks against own fixed-width encoding -> jwsutil.JWK.UnmarshalJSON round trip -> commitment equality with the reference; then labelled bad JWKs (leading zero dropped/added, trailing byte, one bit flipped in x or y and verified off-curve with the curve equation, curve name swapped, missing coordinate) must be rejected by UnmarshalJSON and by VerifySignature. distinct = (curve, leading zero bytes in x, in y, mutation).",
+		Rule:        "cases: public keys of the five types; EC points are also constructed from a chosen x (0..3 leading zero bytes, y by modular square root) so that fixed-width encoding of short coordinates is exercised for every curve, and searched for leading-zero y. Each key: GetPublicKeyJWK -> kty/crv/width checks against own fixed-width encoding -> jwsutil.JWK.UnmarshalJSON round trip -> commitment equality with the reference; then labelled bad JWKs (leading zero dropped/added, trailing byte, one bit flipped in x or y and verified off-curve with the curve equation, curve name swapped, missing coordinate, the x|y boundary shifted by -2..+2 bytes or all bytes in one member with the total length preserved) must be rejected by UnmarshalJSON and by VerifySignature. A JWK variable that decoded a key of another type first must afterwards equal a fresh one (labels, key, re-serialization, PublicKeyBytes). distinct = (curve, leading zero bytes in x, in y, mutation).",
 		Assumptions: []string{"math/big modular arithmetic and curve parameters from crypto/elliptic and btcec", "harness base64url codec"},
-		Require:     []string{"roundtrip", "leading-zero-x", "leading-zero-y", "bad-jwk", "ed25519", "public-key-bytes", "x-at-or-above-group-order"},
+		Require:     []string{"roundtrip", "leading-zero-x", "leading-zero-y", "bad-jwk", "ed25519", "public-key-bytes", "x-at-or-above-group-order", "decoder-reuse"},
 		Run:         runC16,
 	})
 }
@@ -232,6 +233,10 @@ func c16EC(c *fw.Case, typ string, x, y *big.Int) {
 			c.Failf("read-back-kty-crv", map[string]interface{}{"jwk": string(jb), "kty": back.Kty, "crv": back.Crv}, "read-back JWK reports kty=%q crv=%q", back.Kty, back.Crv)
 		}
 	}
+	// one JWK variable that decoded a key of another type before: it must end up exactly like a fresh one
+	if freshErr := back.UnmarshalJSON(jb); freshErr == nil {
+		c16Reuse(c, jb, &back)
+	}
 	// the key read back exposes the same public key bytes as the original key
 	if err := func() error {
 		var rb jwsutil.JWK
@@ -295,6 +300,16 @@ func c16EC(c *fw.Case, typ string, x, y *big.Int) {
 	add("y-truncated", func(m map[string]interface{}) { m["y"] = oracle.B64(yb[:w-1]) })
 	add("x-missing", func(m map[string]interface{}) { delete(m, "x") })
 	add("y-missing", func(m map[string]interface{}) { delete(m, "y") })
+	// both widths wrong at once with the total length preserved: the boundary between x and y moved by k bytes
+	cat := append(append([]byte{}, xb...), yb...)
+	for _, k := range []int{-2, -1, 1, 2, w} {
+		k := k
+		add(fmt.Sprintf("xy-boundary-shifted-%+d", k), func(m map[string]interface{}) {
+			m["x"] = oracle.B64(cat[:w+k])
+			m["y"] = oracle.B64(cat[w+k:])
+		})
+	}
+	add("xy-boundary-all-in-y", func(m map[string]interface{}) { m["x"] = ""; m["y"] = oracle.B64(cat) })
 	for _, coord := range []string{"x", "y"} {
 		coord := coord
 		src := xb
@@ -385,6 +400,9 @@ func c16Ed(c *fw.Case, i int) {
 	} else if p, ok := jk.Key.(ed25519.PublicKey); !ok || !pub.Equal(p) {
 		c.Failf("ed-unmarshal-differs", map[string]interface{}{"jwk": string(jb)}, "UnmarshalJSON(ed25519 JWK) yields a different key")
 	}
+	if err := jk.UnmarshalJSON(jb); err == nil {
+		c16Reuse(c, jb, &jk)
+	}
 	wantC, _ := oracle.Commitment(18, map[string]interface{}{"kty": "OKP", "crv": "Ed25519", "x": oracle.B64(pub), "y": ""})
 	if gc, err := commitment.GetCommitment(got, 18); err != nil || gc != wantC {
 		c.Failf("commitment-differs", map[string]interface{}{"jwk": got, "expected": wantC, "got": gc}, "commitment of the exported Ed25519 key differs from the reference")
@@ -395,6 +413,51 @@ func c16Ed(c *fw.Case, i int) {
 		short := &jws.JWK{Kty: "OKP", Crv: "Ed25519", X: oracle.B64(pub[:31])}
 		if _, err := jwsutil.GetED25519PublicKey(short); err == nil {
 			c.Observe("31-byte Ed25519 x accepted (go-jose pads it); not demanded by C16")
+		}
+	}
+}
+
+// c16Reuse decodes a JWK of every other key type into one variable and then jb into the same variable; the result must
+// not differ from the freshly decoded fresh (labels, key, exported bytes, re-serialization).
+func c16Reuse(c *fw.Case, jb []byte, fresh *jwsutil.JWK) {
+	freshOut, err1 := fresh.MarshalJSON()
+	freshBytes, err2 := fresh.PublicKeyBytes()
+	for _, ot := range gen.AllKeyTypes {
+		if ot == fresh.Crv {
+			continue
+		}
+		o := gen.NewKey(c.Rng, ot)
+		oj, err := pubkey.GetPublicKeyJWK(o.Public())
+		if err != nil {
+			continue
+		}
+		ob, _ := json.Marshal(oj)
+		var v jwsutil.JWK
+		if err := v.UnmarshalJSON(ob); err != nil {
+			continue
+		}
+		c.Count("decoder-reuse", 1)
+		c.Evals(1)
+		c.Sig("reuse", ot, fresh.Crv)
+		w := map[string]interface{}{"first_jwk": string(ob), "second_jwk": string(jb)}
+		if err := v.UnmarshalJSON(jb); err != nil {
+			w["err"] = err.Error()
+			c.Failf("reused-decoder-error", w, "a JWK variable that held a %s key cannot decode a %s JWK: %v", ot, fresh.Crv, err)
+			continue
+		}
+		out, e1 := v.MarshalJSON()
+		pkb, e2 := v.PublicKeyBytes()
+		w["labels"] = v.Kty + "/" + v.Crv
+		w["reserialized"] = string(out)
+		switch {
+		case v.Kty != fresh.Kty || v.Crv != fresh.Crv:
+			c.Failf("reused-decoder-labels", w, "a JWK variable that held a %s key reports kty=%q crv=%q after decoding a %s/%s JWK", ot, v.Kty, v.Crv, fresh.Kty, fresh.Crv)
+		case !reflect.DeepEqual(v.Key, fresh.Key):
+			c.Failf("reused-decoder-key", w, "a JWK variable that held a %s key holds a different key than a fresh one after decoding the same JWK", ot)
+		case (e1 == nil) != (err1 == nil) || !bytes.Equal(out, freshOut):
+			c.Failf("reused-decoder-reserialization", w, "re-serialization differs from a fresh variable's: %s vs %s", out, freshOut)
+		case (e2 == nil) != (err2 == nil) || !bytes.Equal(pkb, freshBytes):
+			c.Failf("reused-decoder-key-bytes", w, "PublicKeyBytes differs from a fresh variable's")
 		}
 	}
 }
